@@ -1,4 +1,3 @@
-from math import ceil
 from typing import Optional
 from typing import Tuple
 
@@ -11,6 +10,7 @@ from pfhedge._utils.typing import TensorOrScalar
 from pfhedge.stochastic import generate_vasicek
 
 from .base import BasePrimary
+from .base import n_time_steps
 
 
 class VasicekRate(BasePrimary):
@@ -88,7 +88,7 @@ class VasicekRate(BasePrimary):
 
         spot = generate_vasicek(
             n_paths=n_paths,
-            n_steps=ceil(time_horizon / self.dt + 1),
+            n_steps=n_time_steps(time_horizon, self.dt),
             init_state=init_state,
             kappa=self.kappa,
             theta=self.theta,
